@@ -598,7 +598,12 @@ pub fn verif_pino_next_whirlpool_liquidity(
     tick_lower_index: i32,
     liquidity_delta: i128,
 ) -> Result<u128> {
-    pino_next_whirlpool_liquidity(whirlpool, tick_upper_index, tick_lower_index, liquidity_delta)
+    pino_next_whirlpool_liquidity(
+        whirlpool,
+        tick_upper_index,
+        tick_lower_index,
+        liquidity_delta,
+    )
 }
 
 #[cfg(feature = "verif")]
